@@ -83,6 +83,12 @@ fn run_case<G: AffineRepr>(env: &Env<G>, c: &Case) -> CaseOut {
     let hm = Mirror::of(proof).unwrap();
     let m = &po.st.model;
     let (n1, n2) = (m.n1(), m.n2());
+    if real_gate_counts(&po.st.trace) != (n1, n2) {
+        // the real system allocated differently from the model: that is C16's subject; the blinding
+        // oracles below are phrased in terms of the gate counts and cannot be applied
+        o.inconclusive = Some(format!("real gate counts {:?} differ from the model's ({}, {}) (see C16)", real_gate_counts(&po.st.trace), n1, n2));
+        return o;
+    }
     o.count("proofs", 1);
     o.sig(format!("{}|n1={}|n2={}|m={}|taint={}", env.curve, n1, n2, po.vs.len(), c.taint));
     let ctxj = |extra: serde_json::Value| json!({"program": prog, "n1": n1, "n2": n2, "detail": extra});
